@@ -636,6 +636,8 @@ class Ctx:
         box = {"last": None, "first_w1": None}
         # (an immediately repeated command always goes over its own outputs)
         reuse_last = rng.random() < 0.5 or steps[-2:] == ["w1", "w1"]
+        # ... or over the output files which the other workload has just written there
+        over_w2 = steps[-2:] == ["w2", "w1"] and rng.random() < 0.5
         afmt = [rng.choice(["tpf", "agp"]) for _ in steps]
         # invocations before the last one may log elsewhere or not at all
         modes = [rng.choice(["normal", "normal", "nolog", "stdout", "debug"]) for _ in steps]
@@ -665,6 +667,13 @@ class Ctx:
                         if st == "w1" and k == len(steps) - 1 and reuse_last and box["first_w1"] is not None:
                             # the same command again, over its own earlier outputs (default --clobber)
                             reuse = box["first_w1"].outd
+                        if over_w2 and k == len(steps) - 2:
+                            box["shared"] = self.new_out()
+                            reuse = box["shared"]
+                        if over_w2 and k == len(steps) - 1:
+                            reuse = box["shared"]
+                            with self.world.suspend():
+                                box["pre"] = sorted(os.listdir(reuse))
                         oc = self.run_p2a(st, end=False, mode=modes[k], reuse_out=reuse)
                         if st == "w1" and modes[k] == "normal":
                             box["last"] = oc
@@ -678,12 +687,18 @@ class Ctx:
 
         done, box = self.forked(whole_history, "history")
         last = box["last"]
+        if box.get("pre") is not None and last is not None:
+            # files the other workload left there and this run does not write are not its outputs
+            last.files = {k: v for k, v in last.files.items() if k in ref.files or k not in box["pre"]}
+            self.world.probe("history_final_run_over_other_outputs")
         ok = self.compare("history", ref, last, f"after the in-process invocations {list(zip(steps, modes))[:-1]} vs a fresh process")
         if ok:
             for st, oc in done:
                 if oc is not last and oc.outd == last.outd:
                     continue  # overwritten on purpose by the final run
                 now = Outcome(oc.code, self.collect(oc.outd, oc.ind))
+                if oc is last and box.get("pre") is not None:
+                    now.files = {k: v for k, v in now.files.items() if k in ref.files or k not in box["pre"]}
                 if not self.compare("history", oc, now, f"files of the earlier in-process invocation {st!r} re-read at the end of the history {steps}"):
                     break
         clirun.end_of_process()
@@ -706,6 +721,18 @@ class Ctx:
         else:
             r, trace = self.run_inproc(self.af.cli, args, "asm-format", end=end)
             oc = Outcome(r.code, self.collect(outd, d), r.stderr)
+        oc.outd, oc.ind = outd, d
+        return oc
+
+    def run_asmformat_rel(self, key, fmt, cwd):
+        """asm-format without --name, the input given relative to the working directory."""
+        wl = self.case[key]
+        d, asm, prt = self.stage(key)
+        src = prt if wl["kind"] == "fasta" else asm
+        outd = self.new_out()
+        args = [os.path.relpath(src, cwd), "-o", os.path.join(outd, "y.txt"), "-f", fmt]
+        r, _trace = self.run_inproc(self.af.cli, args, "asm-format", cwd=cwd)
+        oc = Outcome(r.code, self.collect(outd, d), r.stderr)
         oc.outd, oc.ind = outd, d
         return oc
 
@@ -779,6 +806,11 @@ class Ctx:
                 return
         if not self.after_odd_inputs(fmt):
             return
+        for fmt in ("STR", "REPR", "TPF"):
+            here = self.run_asmformat_rel("w1", fmt, self.stage("w1")[0])
+            there = self.run_asmformat_rel("w1", fmt, self.root)
+            if not self.compare("asm_format", here, there, f"asm-format -> {fmt} without --name: input given relative to two different working directories"):
+                return
         for fmt in ("tpf", "agp", "STR", "REPR", "stdout"):
             a = self.run_asmformat("w1", fmt)
             b = self.run_asmformat("w1", fmt, subprocess_seed=self.case["seeds"][-1])
